@@ -195,6 +195,10 @@ type ttxHeader struct {
 	C12 uint8 `json:"c12"`
 	C13 uint8 `json:"c13"`
 	C14 uint8 `json:"c14"`
+	// Ctl: the control bits C7 (suppress header), C8 (update indicator), C9 (interrupted sequence), C10 (inhibit
+	// display) as a nibble; Sub: the page sub-code S1..S4 (4+3+4+2 bits). None of them says which rows the instance has
+	Ctl uint8  `json:"ctl,omitempty"`
+	Sub uint16 `json:"sub,omitempty"`
 }
 
 func headerUnit(h ttxHeader, id byte) []byte {
@@ -211,7 +215,8 @@ func headerUnit(h ttxHeader, id byte) []byte {
 	if h.Serial {
 		c11 = 1
 	}
-	d := []byte{ham84(h.Units), ham84(h.Tens), ham84(0), ham84(c4), ham84(0), ham84(c6), ham84(0), ham84(c11 | h.C12<<1 | h.C13<<2 | h.C14<<3)}
+	s1, s2, s3, s4 := uint8(h.Sub&15), uint8(h.Sub>>4&7), uint8(h.Sub>>7&15), uint8(h.Sub>>11&3)
+	d := []byte{ham84(h.Units), ham84(h.Tens), ham84(s1), ham84(s2 | c4), ham84(s3), ham84(s4 | c6), ham84(h.Ctl & 15), ham84(c11 | h.C12<<1 | h.C13<<2 | h.C14<<3)}
 	for i := 0; i < 32; i++ {
 		d = append(d, oddPar(' ', false))
 	}
@@ -385,6 +390,9 @@ type ttxInstance struct {
 	NoFlag bool `json:"no_subtitle_flag,omitempty"`
 	// NoErase: the header does not carry the erase flag (C4). An instance shows the rows sent with it, whatever the flag
 	NoErase bool `json:"no_erase_flag,omitempty"`
+	// Ctl, Sub: control bits C7..C10 and page sub-code of this instance's header (see ttxHeader)
+	Ctl uint8  `json:"ctl,omitempty"`
+	Sub uint16 `json:"sub,omitempty"`
 }
 
 type ttxStream struct {
@@ -478,7 +486,7 @@ func (s ttxStream) render() ([]byte, []ttxExpCue) {
 		}
 	}
 	sel := func(in ttxInstance) ttxHeader {
-		return ttxHeader{Mag: s.Mag, Tens: s.Tens, Units: s.Units, Subtitle: !in.NoFlag, Erase: !in.NoErase, Serial: s.Serial, C12: in.C12, C13: in.C13, C14: in.C14}
+		return ttxHeader{Mag: s.Mag, Tens: s.Tens, Units: s.Units, Subtitle: !in.NoFlag, Erase: !in.NoErase, Serial: s.Serial, C12: in.C12, C13: in.C13, C14: in.C14, Ctl: in.Ctl, Sub: in.Sub}
 	}
 	otherMag := s.Mag%8 + 1
 	distractorText := func(y uint8, txt string) []byte {
@@ -964,6 +972,10 @@ func genTTXStream(t *rapid.T) ttxStream {
 		}
 		in.NoFlag = (s.OptPage || i > 0) && rapid.IntRange(0, 5).Draw(t, "noflag") == 0
 		in.NoErase = rapid.IntRange(0, 3).Draw(t, "noerase") == 0
+		// control bits C7..C10 and sub-code: derived from the presentation time (itself drawn), on two instances in three
+		if h := uint64(pts) * 0x9E3779B97F4A7C15 >> 24; h%3 != 0 {
+			in.Ctl, in.Sub = uint8(h>>8)&15, uint16(h>>16)&0x1fff
+		}
 		s.Instances = append(s.Instances, in)
 		pts += rapid.Int64Range(3600, 90000*20).Draw(t, "gap")
 	}
